@@ -22,15 +22,22 @@ RULE = ('one case = one Configurator (exception classes with single/multiple inh
         'declarations committed after the first batch of requests) x 6-12 requests through Router.__call__, each with a '
         'raising site (view body, secured view, root factory, tween, unmatched URL), a tween under the excview tween '
         '(pass / raise / catch + invoke_exception_view(reraise=, secure=), on the request itself or on ANOTHER request '
-        'object with request= / dispatch the same request twice) and optionally pre-set request.exception; '
+        'object with request= / dispatch the same request twice / request.invoke_subrequest(fresh request[, use_tweens=]) '
+        'instead of the handler) and optionally pre-set request.exception; declarations also through the venusian '
+        'decorators + config.scan(); optionally a default permission in force and add_notfound_view(append_slash=True) '
+        '(route-less cases); optionally default CSRF options require_csrf=True in '
+        'force; exceptions raised plainly / from a cause / while another is handled (chain compared at the caller); '
+        'falsy response objects; '
         'non-trivial = the case declares >= 2 exception views, an exception view body ran on some request, and on another '
         'request the exception propagated to the caller; distinct by full case')
 ASSUMPTIONS = [
     'zope.interface resolution orders (providedBy(exception object).__sro__, request_iface.__sro__, '
     'request_iface.combined.__sro__) and isinstance() tables are oracle inputs',
     'everything assumed by the C03 model of register_view / MultiView / _find_views / _call_view (no accept= here)',
-    'exception-view predicates are request-based (xhr, request_method, request_param, custom); view bodies do not raise '
-    'PredicateMismatch themselves; exception views carry no permission (a refusal while rendering is C05 territory)',
+    'a subrequest is dispatched from the tween under the excview tween (not from inside a view body); with '
+    'append_slash=True no route exists (the redirect of AppendSlashNotFoundViewFactory is not modelled); under a default '
+    'permission add_view declarations without a permission say NO_PERMISSION_REQUIRED (the default permission on the '
+    'ordinary side of a declaration is not modelled)',
     'request.exc_info is represented by the exception object it carries (exc_info[1]); the traceback is not modelled',
     'thread-local push/pop inside invoke_exception_view is C13\'s; the view lookup cache is C15\'s (the model has none, '
     'so any stale answer is a disagreement)',
@@ -47,7 +54,8 @@ TRUSTED = [
     'theorems, about the regenerated functions); the parts that are NOT regenerated stay shape-pinned: Router.handle_request / '
     'invoke_request / finish_request (route matching, traversal and notifications are oracle inputs: too irregular for '
     'the translator), add_view.register and the three directives (value facts + statement pins), MultiView / '
-    'predicated_view / register_view (C03), _secured_view; _find_views and _clear_view_lookup_cache are tied through '
+    'predicated_view / register_view (C03), _secured_view, Router.invoke_subrequest (masked pin + the regenerated default '
+    'of use_tweens), the venusian decorators; _find_views and _clear_view_lookup_cache are tied through '
     "C15's translator (imported read-only); the C03 model (imported unchanged)",
     'the instrumented tweens / views of harness/c14/app.py (public seams only)',
 ]
@@ -57,7 +65,8 @@ TECHNIQUE = ('Coq proof on a Gallina model whose control flow is REGENERATED fro
              'and proved equal to a hand-written reference model (generated_f = model_f, proof scripts independent of the '
              'generated text) + C03 lookup theorems at the exception classifier + extracted-model differential '
              'correspondence of full event traces through Router.__call__ (the runner executes the regenerated pipeline) '
-             '+ an executable judge of the property (Coq, extracted) applied to the implementation\'s trace')
+             '+ an executable judge of the property (Coq, extracted; rendering judge + raising-site judge) applied to the '
+             'implementation\'s trace')
 LEVEL_TEXT = ('Machine-checked theorems, stated about the functions regenerated from the current source: the exception view '
               'that renders an exception is a qualifying registration than which none is more specific in the resolution '
               'order of the raised OBJECT (route-bound before global via the combined request interface; overriding '
@@ -67,12 +76,16 @@ LEVEL_TEXT = ('Machine-checked theorems, stated about the functions regenerated 
               'attribute map, duplicate-free name list and body; refuted for repeated names); a secured exception view '
               'that is refused does not run and its HTTPForbidden propagates; HTTP exceptions without a custom view are '
               'returned as the response; exception_only splits the registrations between the two classifiers; the '
-              'executable judge accepts every trace of the regenerated pipeline.')
+              'executable judge accepts every trace of the regenerated pipeline; what an ordinary view body raised is what '
+              'reaches exception handling (raising-site judge, proved at full strength incl. bodies raising '
+              'PredicateMismatch); a subrequest without use_tweens=True hands its exception to the caller unrendered '
+              '(default of use_tweens regenerated = False; refuted for a default of True).')
 LEVEL_NOTE = ('Trusted: Coq kernel; the translator\'s primitive table and statement subset (fail-closed); the reference '
               'model for the parts that are not regenerated (shape-pinned); the C03 model; Python harness; zope.interface as '
               'oracle. The specificity theorems inherit C03\'s hypotheses (equal (slot, phash) => equal order and predicate '
               'texts -- checked by an executable premise on every generated world; duplicate-free resolution orders; no '
-              'accept= for the judge theorem); the judge theorem assumes no view body raises PredicateMismatch.')
+              'accept= for the judge theorem); the rendering-judge theorems assume no view body raises PredicateMismatch '
+              '(the raising-site theorems do not).')
 
 ISA_NAMES = ['BaseException', 'Exception', 'HTTPNotFound', 'PredicateMismatch', 'HTTPForbidden']   # + pseudo 'truthy'
 EXC_CLASSES = ['E0', 'E1', 'E2', 'F0', 'D', 'K', 'NF', 'FB', 'BR', 'PM', 'MyNF', 'HE', 'WX', 'BE', 'G1', 'G2', 'DD', 'FZ', 'EL', 'NA']
@@ -151,7 +164,10 @@ def gen_body(rng, excs, exc_view):
         act = ['ret'] if (r < 0.6 or not ok) else ['ctx'] if r < 0.8 else ['raise', rng.choice(ok)]
     else:
         act = ['ret'] if (r < 0.3 or not ok) else ['raise', rng.choice(ok)]
-    return {'touch': rng.random() < 0.3, 'act': act}
+    b = {'touch': rng.random() < 0.3, 'act': act}
+    if act == ['ret'] and rng.random() < 0.15:
+        b['falsy'] = True         # a response object whose truth value is False (empty body + __len__, or __bool__)
+    return b
 
 
 def _norm_under(u):
@@ -177,6 +193,9 @@ def gen_case(rng):
         cls = rng.choice(fam) if rng.random() < 0.8 else rng.choice(EXC_CLASSES)
         marks = sorted(rng.sample(MARKS, rng.choice([1, 1, 2]))) if rng.random() < 0.3 else []
         excs.append({'cls': cls, 'marks': marks})
+        r = rng.random()
+        if r < 0.3:       # raised `from` a cause / while another exception is handled: the chain must survive propagation
+            excs[-1]['chain'] = 'cause' if r < 0.15 else 'context'
     nexc = len(excs)
     views = []
     tag = 0
@@ -213,6 +232,8 @@ def gen_case(rng):
                 v['ctx'] = None
         if not _exc_decl(v):
             v['body'] = gen_body(rng, excs, False)
+        if v.get('defctx') is None and rng.random() < 0.15:
+            v['deco'] = True       # @exception_view_config / @notfound_view_config / ... + config.scan()
         tag += 1
         views.append(v)
     # declarations committed after the first requests: twins of earlier exception views with other predicates
@@ -232,7 +253,8 @@ def gen_case(rng):
     for _ in range(rng.choice([6, 8, 10])):
         r = rng.random()
         under = ['pass'] if r < 0.5 else ['raise', rng.randrange(nexc)] if r < 0.62 else \
-            ['retry', rng.choice(['', 'v', 'zz'])] if r < 0.72 else \
+            ['retry', rng.choice(['', 'v', 'zz'])] if r < 0.70 else \
+            ['sub', rng.choice([None, None, None, False, True])] if r < 0.78 else \
             ['catch', rng.random() < 0.4, rng.random() < 0.7, rng.random() < 0.4,
              rng.randrange(nexc) if rng.random() < 0.6 else None]
         reqs.append({'phase': 0, 'route': rng.choice(rnames) if (rnames and rng.random() < 0.4) else None,
@@ -249,7 +271,22 @@ def gen_case(rng):
             if rng.random() < 0.3:
                 r['xhr'] = not r['xhr']
         reqs += later
-    return {'routes': routes, 'excs': excs, 'views': views, 'requests': reqs, 'autocommit': rng.random() < 0.6}
+    case = {'routes': routes, 'excs': excs, 'views': views, 'requests': reqs, 'autocommit': rng.random() < 0.6}
+    # a default permission in force before the declarations are made (exception-only views are exempt from it; the
+    # other declarations then say permission=NO_PERMISSION_REQUIRED when they carry none of their own)
+    if rng.random() < 0.25:
+        case['defperm'] = True
+    # default CSRF options require a token for unsafe methods (exception views are exempt unless they say otherwise;
+    # add_view declarations that can match the resource say require_csrf=False)
+    if rng.random() < 0.25:
+        case['csrf'] = True
+    # add_notfound_view(append_slash=True): only where no route exists (no redirect can happen: the factory is
+    # transparent and hands the request on to the wrapped view)
+    if not routes:
+        for v in views:
+            if v['dir'] == 'nf' and v.get('defctx') is None and rng.random() < 0.6:
+                v['slash'] = True
+    return case
 
 
 def generate(rng, tier, n):
@@ -260,7 +297,8 @@ def generate(rng, tier, n):
 
 def valid(case):
     try:
-        if set(case) != {'routes', 'excs', 'views', 'requests', 'autocommit'} or not case['requests'] or not case['excs']:
+        if set(case) - {'defperm', 'csrf'} != {'routes', 'excs', 'views', 'requests', 'autocommit'} or not case['requests'] \
+                or not case['excs'] or case.get('defperm', True) is not True or case.get('csrf', True) is not True:
             return False
         rn = [r['name'] for r in case['routes']]
         if len(set(rn)) != len(rn) or any(n not in ROUTES for n in rn):
@@ -268,6 +306,8 @@ def valid(case):
         nexc = len(case['excs'])
         for x in case['excs']:
             if x['cls'] not in EXC_CLASSES or any(m not in MARKS for m in x['marks']) or x['marks'] != sorted(set(x['marks'])):
+                return False
+            if set(x) - {'cls', 'marks', 'chain'} or x.get('chain', 'cause') not in ('cause', 'context'):
                 return False
 
         def okid(i):
@@ -290,10 +330,16 @@ def valid(case):
                 return False
             if v['dir'] in ('nf', 'fb') and v['ctx'] is not None:
                 return False
+            if 'deco' in v and (v['deco'] is not True or v.get('defctx') is not None):
+                return False
+            if 'slash' in v and (v['slash'] is not True or v['dir'] != 'nf' or case['routes'] or v.get('defctx') is not None):
+                return False
             a = v['body']['act']
             if not (a in (['ret'], ['ctx']) or (len(a) == 2 and a[0] == 'raise' and okid(a[1]))):
                 return False
             if not isinstance(v['body']['touch'], bool):
+                return False
+            if set(v['body']) - {'touch', 'act', 'falsy'} or ('falsy' in v['body'] and (v['body']['falsy'] is not True or a != ['ret'])):
                 return False
             for n, val in v['preds'].items():
                 if n == 'xhr':
@@ -339,6 +385,7 @@ def valid(case):
             u = _norm_under(r['under'])
             if not (u == ['pass'] or (len(u) == 2 and u[0] == 'raise' and okid(u[1]))
                     or (len(u) == 2 and u[0] == 'retry' and u[1] in VNAMES)
+                    or (len(u) == 2 and u[0] == 'sub' and u[1] in (None, False, True))
                     or (len(u) == 5 and u[0] == 'catch' and isinstance(u[1], bool) and isinstance(u[2], bool)
                         and isinstance(u[3], bool) and (u[4] is None or okid(u[4])))):
                 return False
@@ -357,6 +404,10 @@ def shrinks(case):
         yield dict(case, views=l[:i] + l[i + 1:])
     if not case['autocommit']:
         yield dict(case, autocommit=True)
+    if case.get('defperm'):
+        yield {k: x for k, x in case.items() if k != 'defperm'}
+    if case.get('csrf'):
+        yield {k: x for k, x in case.items() if k != 'csrf'}
     for i, v in enumerate(case['views']):
         def put(nv, i=i):
             vs = case['views'][:i] + [nv] + case['views'][i + 1:]
@@ -370,6 +421,12 @@ def shrinks(case):
                 yield put(dict(v, **{k: simple}))
         if v['body']['touch']:
             yield put(dict(v, body=dict(v['body'], touch=False)))
+        if v['body'].get('falsy'):
+            yield put(dict(v, body={k: x for k, x in v['body'].items() if k != 'falsy'}))
+        if v.get('slash'):
+            yield put({k: x for k, x in v.items() if k != 'slash'})
+        if v.get('deco'):
+            yield put({k: x for k, x in v.items() if k != 'deco'})
     for i, r in enumerate(case['requests']):
         def putr(nr, i=i):
             rs = case['requests'][:i] + [nr] + case['requests'][i + 1:]
@@ -387,9 +444,11 @@ def shrinks(case):
     for i, x in enumerate(case['excs']):
         if x['marks']:
             yield dict(case, excs=case['excs'][:i] + [dict(x, marks=[])] + case['excs'][i + 1:])
+        if x.get('chain'):
+            yield dict(case, excs=case['excs'][:i] + [{k: y for k, y in x.items() if k != 'chain'}] + case['excs'][i + 1:])
     used = {v['route'] for v in case['views']} | {r['route'] for r in case['requests']}
     for i, rt in enumerate(case['routes']):
-        if rt['name'] not in used:
+        if rt['name'] not in used and not (len(case['routes']) == 1 and any(v.get('slash') for v in case['views'])):
             yield dict(case, routes=case['routes'][:i] + case['routes'][i + 1:])
 
 
@@ -511,6 +570,12 @@ class World:
         cfg = P['Configurator'](autocommit=not batched, root_factory=A.root_factory,
                                 exceptionresponse_view=A.make_body(900, False, ['ctx']))
         cfg.set_security_policy(A.Policy())
+        if case.get('defperm'):
+            cfg.set_default_permission('dp')
+        if case.get('csrf'):
+            from pyramid.csrf import CookieCSRFStoragePolicy
+            cfg.set_csrf_storage_policy(CookieCSRFStoragePolicy())
+            cfg.set_default_csrf_options(require_csrf=True)
         cfg.add_tween('harness.c14.app.observer_factory', over=P['EXCVIEW'])
         cfg.add_tween('harness.c14.app.probe_factory', under=P['EXCVIEW'])
         cfg.add_tween('harness.c14.app.under_factory', under='harness.c14.app.probe_factory')
@@ -555,7 +620,7 @@ class World:
     def _add(self, v):
         P = _P
         tag = v['tag']
-        body = A.make_body(tag, v['body']['touch'], v['body']['act'])
+        body = A.make_body(tag, v['body']['touch'], v['body']['act'], bool(v['body'].get('falsy')))
         kw, mkw = {}, []
         for n in sorted(v['preds']):
             val = v['preds'][n]
@@ -597,13 +662,38 @@ class World:
             body = Cls
             kw['attr'] = 'run'
         ckw = {} if (defobj is not None and ctxobj is None) else {'context': ctxobj}
+        if self.case.get('csrf') and v['dir'] == 'view' and not (v['ctx'] in EXC_CTX_NAMES and defobj is None):
+            # a declaration that can match the traversed resource opts out of the default CSRF check; one made for an
+            # exception context says nothing (its exception side is exempt, its ordinary side matches no resource here)
+            ckw['require_csrf'] = False
         try:
-            if v['dir'] == 'view':
+            if v.get('deco'):
+                # declared with the venusian decorator of the directive and picked up by config.scan()
+                from pyramid.security import NO_PERMISSION_REQUIRED
+                import pyramid.view as PV
+                if v['dir'] == 'view':
+                    noperm = NO_PERMISSION_REQUIRED if self.case.get('defperm') else None
+                    self._scan(tag, body, PV.view_config, dict(kw, name=v['name'], route_name=v['route'],
+                                                               exception_only=v['xonly'],
+                                                               permission='p' if v['perm'] else noperm, **ckw))
+                elif v['dir'] == 'exc':
+                    self._scan(tag, body, PV.exception_view_config, dict(kw, route_name=v['route'], **ckw))
+                elif v['dir'] == 'nf':
+                    if v.get('slash'):
+                        kw['append_slash'] = True
+                    self._scan(tag, body, PV.notfound_view_config, dict(kw, route_name=v['route']))
+                else:
+                    self._scan(tag, body, PV.forbidden_view_config, dict(kw, route_name=v['route']))
+            elif v['dir'] == 'view':
+                from pyramid.security import NO_PERMISSION_REQUIRED
+                noperm = NO_PERMISSION_REQUIRED if self.case.get('defperm') else None
                 self.cfg.add_view(body, name=v['name'], route_name=v['route'], exception_only=v['xonly'],
-                                  permission='p' if v['perm'] else None, **ckw, **kw)
+                                  permission='p' if v['perm'] else noperm, **ckw, **kw)
             elif v['dir'] == 'exc':
                 self.cfg.add_exception_view(body, route_name=v['route'], **ckw, **kw)
             elif v['dir'] == 'nf':
+                if v.get('slash'):
+                    kw['append_slash'] = True
                 self.cfg.add_notfound_view(body, route_name=v['route'], **kw)
             else:
                 self.cfg.add_forbidden_view(body, route_name=v['route'], **kw)
@@ -618,6 +708,24 @@ class World:
         return [DIRS.index(v['dir']), [] if ctxobj is None else [self.iid(self.spec_of(ctxobj))], v['xonly'],
                 _ctxbits(ctxobj), args, v['phase'], [v['body']['touch'], wact, v['perm']],
                 [] if defobj is None else [self.iid(self.spec_of(defobj))], _ctxbits(defobj)]
+
+    def _scan(self, tag, body, deco, kw):
+        import sys
+        import types
+        name = 'c14scan_%d' % tag
+        mod = types.ModuleType(name)
+        sys.modules[name] = mod
+        mod.__dict__.update(KW=kw, BODY=body, DECO=deco)
+        src = '@DECO(**KW)\ndef v(context, request):\n    return BODY(context, request)\n'
+        import linecache
+        fname = '<%s>' % name
+        linecache.cache[fname] = (len(src), None, src.splitlines(True), fname)    # view_config reads its source line
+        try:
+            exec(compile(src, fname, 'exec'), mod.__dict__)
+            self.cfg.scan(mod)
+        finally:
+            sys.modules.pop(name, None)
+            linecache.cache.pop(fname, None)
 
     # ---- exceptions
     def make_exc(self, i):
@@ -682,6 +790,7 @@ class World:
               rx, [], sorted(r['truth']), rsro, csro, r['vname']]
         u = _norm_under(r['under'])
         wu = [0] if u[0] == 'pass' else [1, u[1]] if u[0] == 'raise' else [3] if u[0] == 'retry' else \
+            [4, [] if u[1] is None else [bool(u[1])]] if u[0] == 'sub' else \
             [2, u[1], u[2], u[3], [] if u[4] is None else [u[4]]]
         rq2 = []
         if u[0] == 'retry':
@@ -699,7 +808,7 @@ class World:
     def run(self, r):
         req = self.request(r)
         env = A.Env(self, {'under': _norm_under(r['under']), 'preset': r['preset'], 'root_raise': r['root_raise'],
-                           'deny': r['deny'], 'truth': set(r['truth'])})
+                           'deny': r['deny'], 'truth': set(r['truth']), 'r': r})
         req.environ['c14'] = env
         outer = None
         try:
@@ -707,6 +816,11 @@ class World:
             outer = [0, resp.status_int]
         except BaseException as e:
             outer = [2, env.lab(e)]
+            changed = env.chain_state(e)
+            if changed is not None:
+                # "the original exception object propagates UNCHANGED to the caller": same object, but the chaining
+                # information it was raised with (__cause__ / __suppress_context__) was rewritten on the way
+                return [[9, 'propagated-object-changed'] + changed]
         if env.final is None:
             return [[9, 'no-final']]
         out, snap = env.final
@@ -879,6 +993,7 @@ def kinds(case, obs):
     if not isinstance(obs, list) or (obs and obs[0] == 'HARNESS-EXC'):
         return ['harness-exc']
     act_of = {v['tag']: v['body']['act'][0] for v in case['views']}
+    falsy_tags = {v['tag'] for v in case['views'] if v['body'].get('falsy')}
     for r, tr in zip(case['requests'], obs):
         r = dict(r, under=_norm_under(r['under']))
         f = _final(tr)
@@ -908,8 +1023,19 @@ def kinds(case, obs):
             k.append('no-view:propagated' + ('-attrs-preset' if any(s for s in f[2]) else ''))
         if r['preset'] is not None:
             k.append('req:preset')
+        if o[0] == 2 and o[1] < 1000 and case['excs'][o[1]].get('chain'):
+            k.append('final:propagated-with-' + case['excs'][o[1]]['chain'])
+        if xb and xb[-1][1] in falsy_tags and o[0] == 0:
+            k.append('excview-returned-falsy-response')
+        if case.get('csrf') and r['method'] == 'POST' and xb:
+            k.append('excview-ran-on-POST-under-default-csrf')
         if r['under'][0] == 'retry':
             k.append('req:dispatched-twice' + ('-first-routed' if r['route'] else ''))
+        if r['under'][0] == 'sub':
+            k.append('req:subrequest-use_tweens-' + {None: 'default', False: 'false', True: 'true'}[r['under'][1]]
+                     + ('-raised' if (arriving is not None and arriving[0] == 2) else '')
+                     + ('-sub-excview-ran' if (probe and any(e[0] == 0 and e[2] != A.CTX_RESOURCE
+                                                             for e in tr[:tr.index(probe[0])])) else ''))
         if r['phase'] == 1:
             k.append('req:phase1')
         if r['route']:
@@ -941,6 +1067,10 @@ def kinds(case, obs):
                 dirs.add('decl:%s-with-%s' % (v['dir'], n))
         if v.get('defctx') is not None:
             dirs.add('decl:class-defaults-%s%s' % (v['dir'], '' if v['ctx'] is None else '-explicit-context'))
+        if v.get('deco'):
+            dirs.add('decl:by-decorator-and-scan-' + v['dir'])
+        if v.get('slash'):
+            dirs.add('decl:nf-append-slash' + ('-under-default-permission' if case.get('defperm') else ''))
     k += sorted(dirs)
     if any(x['marks'] for x in case['excs']):
         k.append('exc:marked-instance')
@@ -950,6 +1080,13 @@ def kinds(case, obs):
     if d and d['conflict']:
         k.append('cfg:conflict-fallback')
     k.append('cfg:autocommit' if case['autocommit'] else 'cfg:batched')
+    if case.get('defperm'):
+        k.append('cfg:default-permission')
+    if case.get('csrf'):
+        k.append('cfg:default-csrf-required')
+        if any(v['dir'] == 'view' and v['ctx'] in EXC_CTX_NAMES and v.get('defctx') is None
+               and (v['perm'] or case.get('defperm')) for v in case['views']):
+            k.append('cfg:default-csrf-required+add_view-excview-with-explicit-permission')
     for ok in _PREM.get(_key(case), []):
         k.append('theorem-premises:' + ('hold' if ok else 'fail'))
     for ok in _GENREF.get(_key(case), []):
@@ -964,9 +1101,9 @@ def targeted(broken, disagreements, rng):
     view for the same class committed after the first rendering, (c) marker interfaces on instances, (d) exception
     views that fail, (e) routed requests with global exception views."""
     out = []
-    for i in range(400):
+    for i in range(560):
         c = gen_case(rng)
-        k = i % 5
+        k = i % 7
         nexc = len(c['excs'])
         if k == 0:
             for r in c['requests']:
@@ -994,6 +1131,26 @@ def targeted(broken, disagreements, rng):
             for v in c['views']:
                 if _exc_decl(v) and ok and rng.random() < 0.7:
                     v['body'] = {'touch': rng.random() < 0.5, 'act': ['raise', rng.choice(ok)]}
+        elif k == 5:
+            # (f) configuration-wide defaults (CSRF, permission) x add_view declarations for exception contexts with an
+            # explicit permission x unsafe methods
+            c['csrf'] = True
+            if rng.random() < 0.5:
+                c['defperm'] = True
+            for v in c['views']:
+                if _exc_decl(v) and v['dir'] in ('exc', 'view') and v.get('defctx') is None and rng.random() < 0.7:
+                    v.update(dir='view', xonly=rng.random() < 0.3, perm=rng.random() < 0.6, name='')
+                    if v['ctx'] is None:
+                        v['ctx'] = 'Exception'
+            for r in c['requests']:
+                r['method'] = 'POST'
+        elif k == 6:
+            # (g) falsy values flowing through: falsy responses from exception views, chained exceptions without a view
+            for v in c['views']:
+                if _exc_decl(v) and v['body']['act'] == ['ret']:
+                    v['body']['falsy'] = True
+            for x in c['excs']:
+                x['chain'] = rng.choice(['cause', 'context'])
         else:
             if not c['routes']:
                 c['routes'] = [{'name': 'r1', 'ugv': rng.random() < 0.5}]
